@@ -14,6 +14,10 @@ SPEC = Spec(
         Harness(name="enc", module="internal/e2e", pkg="internal/e2e", common=False,
                 files=dict(_FILES, **{"zz_verif_c14_enc_test.go": "c14/enc_test.go"}),
                 test="TestVerifC14Enc", driver="drv_c14", n={"quick": 3000, "thorough": 40000}, timeout_s=1200),
+        # monitor only: the marker stays fixed after a caller modified bytes handed out by MarshalText/MarshalBinary
+        Harness(name="owned", module="internal/e2e", pkg="internal/e2e", common=False,
+                files=dict(_FILES, **{"zz_verif_c14_owned_test.go": "c14/owned_test.go"}),
+                test="TestVerifC14Owned", driver=None, n={"quick": 50, "thorough": 500}, timeout_s=600),
     ],
     rule="fmt: for the real configopaque.String and 10 twin types of string kind with other method sets, every verb (all ASCII runes "
          "that are not flag characters + non-ASCII samples) x flag sets (9 quick / all 32 thorough) x width x precision {none,0,3} "
